@@ -546,7 +546,7 @@ def extract_spans(trace: dict, ts: TableSet, frames: "FrameTab") -> list[dict]:
                   "modbus": fam in ("ET", "DT"), "prevFailed": False, "ro": api in READ_ONLY_APIS,
                   "guard": bool(ann.get("guard", False)), "documented": bool(ann.get("documented", False)),
                   "bulk": ABSENT, "unknown": "nknown" in ev.get("msg", ""), "failed": bool(ev.get("failed", False)),
-                  "decode": bool(ann.get("decode", True)), "_ann": ann, "wval": ABSENT, "rb": ABSENT}
+                  "decode": bool(ann.get("decode", True)), "_ann": ann, "wval": ABSENT, "rb": ABSENT, "bulkmiss": False}
             if api in ("read_runtime_data", "read_settings_data"):
                 kind = "runtime" if api == "read_runtime_data" else "settings"
                 sp["api"] = kind
@@ -596,6 +596,10 @@ def extract_spans(trace: dict, ts: TableSet, frames: "FrameTab") -> list[dict]:
                 b = last_res.get(kind)
                 if b is not None and ann.get("pair", True) and sid in b["res"]:
                     sp["bulk"] = b["res"][sid]
+                elif b is not None and ann.get("pair", True) and api == "read_sensor" and idx != 0 and b.get("ok") and \
+                        b.get("_listing") is not None and any(ent["id"] == sid for ent in b["_listing"]):
+                    # listed right after the last successful bulk read, but that read reported no such key
+                    sp["bulkmiss"] = True
                 if idx == 0:
                     sp = None          # id not in a listing: nothing to judge against
             else:
